@@ -31,7 +31,7 @@ REQUIRE = {
                  "value alongside gradient/Hessian == stand-alone value": 10, "gradient independent of batch size": 8,
                  "Hessian-vector product == H@p": 1, "transformed coordinates: gradient": 3, "transformed coordinates: Hessian": 1,
                  "CombineFCN: value/gradient alongside Hessian == stand-alone": 2, "CombineFCN: Hessian == d grad/dx (directional FD)": 1},
-    "cover": {"model": ["default", "extended", "cfit", "cfit_cached", "cfit_extended", "cached_int", "cached_amp", "simple"]},
+    "cover": {"model": ["default", "extended", "cfit", "cfit_cached", "cfit_extended", "cached_int", "cached_amp", "simple", "simple_cfit"]},
     "min_nontrivial": {"quick": 8, "thorough": 200},
 }
 LEVEL_TEXT = ("Differential runtime monitor: gradients, Hessians and Hessian-vector products returned by FCN / CombineFCN and by the bound "
@@ -78,7 +78,7 @@ def make_card(rng, tag, float_shapes):
 def run(ctx):
     import tensorflow as tf
 
-    n_cases = ctx.pick(16, 600)
+    n_cases = ctx.pick(18, 600)
     for i, rng in ctx.cases("derivatives", n_cases, budget_s=ctx.pick(600, 3000)):
         tag = "_c07s%di%d" % (ctx.seed, i)
         model = MODEL_NAMES[i % len(MODEL_NAMES)]
@@ -232,7 +232,7 @@ def run(ctx):
                 ctx.violation("Hessian == d grad/dx (FD of nll_grad)", ctx.exc_witness(e, **desc()), mechanism="nll_grad_hessian raises (%s)" % model)
                 H = None
         # (c) Hessian-vector product
-        if H is not None and (rot % 2 == 0 or ctx.tier == "thorough") and model in ("default", "extended", "cached_amp", "simple", "cached_int"):
+        if H is not None and (rot % 2 == 0 or ctx.tier == "thorough"):  # every model: FCN.grad_hessp is offered for all of them
             p = rng.normal(size=len(tv))
             try:
                 with quiet():
